@@ -134,6 +134,11 @@ def judge_parse_diff(ctx, case):
         err = None
     except Exception as e:  # noqa
         got, err = None, e
+        if strict_err is not None:
+            try:                       # a refusal has to be stable: the same bytes offered again are refused again
+                got, err = mk([]).parse(BytesIO(buf)).cmds, None
+            except Exception as e2:  # noqa
+                err = e2
     cls = "diff|%s" % case.get("tag", "")
     if strict_err is not None:
         return ctx.judge("parse_diff", err is not None, case, "fail (%s)" % strict_err, got, cls=cls + "|strict-fails",
